@@ -8,6 +8,7 @@ import (
 	"os"
 	"strings"
 	"sync"
+	"sync/atomic"
 	"testing"
 	"time"
 
@@ -38,6 +39,7 @@ func runClientTxnRT(t *testing.T, seed int64, log *traceLog) {
 	cconn := mn.MustListen(caddr)
 	rto := 5 * time.Millisecond
 	var nmu sync.Mutex
+	var gate atomic.Pointer[rtxGate]
 	name := map[[stun.TransactionIDSize]byte]string{}
 	writes := map[string]int{}
 	cconn.WriteErr = func(p []byte, _ net.Addr) error {
@@ -57,6 +59,14 @@ func runClientTxnRT(t *testing.T, seed int64, log *traceLog) {
 			return nil
 		}
 		log.add(map[string]any{"e": "Sent", "t": tn, "n": n})
+		if g := gate.Load(); g != nil && g.t == tn && n == 2 {
+			log.add(map[string]any{"e": "WriteEnter", "t": tn})
+			g.parked()
+			<-g.release
+			log.add(map[string]any{"e": "WriteExit", "t": tn})
+
+			return errInjectedWrite
+		}
 		if n > 1 && rnd(2) == 0 { // a slow socket: the client holds its transaction-table lock across this write
 			time.Sleep(time.Duration(3+rnd(12)) * time.Millisecond)
 		}
@@ -171,17 +181,96 @@ func runClientTxnRT(t *testing.T, seed int64, log *traceLog) {
 	case <-time.After(2 * time.Second):
 	}
 	log.add(map[string]any{"e": "End", "outstanding": out, "table": table})
+	// last phase (ClientTxn!RtxSlow / CloseBlocked / RtxWriteDone): six transactions nobody answers; the second
+	// transmission of the first one stays inside the socket write -- the timer callback holds the table lock --
+	// while Client.Close is called; the write then fails.  Close has to wait for the callback: nobody is told
+	// "closed" before the write has returned, everybody returns exactly once, Close returns.
+	parked := make(chan struct{})
+	release := make(chan struct{})
+	var once sync.Once
+	gate.Store(&rtxGate{t: "z0", parked: func() { once.Do(func() { close(parked) }) }, release: release})
+	var wg2 sync.WaitGroup
+	out2 := 0
+	for i := 0; i < 6; i++ {
+		tn := fmt.Sprintf("z%d", i)
+		h := sha256.Sum256([]byte(fmt.Sprintf("rt/%d/%s", seed, tn)))
+		var id [stun.TransactionIDSize]byte
+		copy(id[:], h[:])
+		nmu.Lock()
+		name[id] = tn
+		nmu.Unlock()
+		wg2.Add(1)
+		omu.Lock()
+		out2++
+		omu.Unlock()
+		go func() {
+			defer wg2.Done()
+			msg := stun.MustBuild(txidSetter(id), stun.BindingRequest)
+			log.add(map[string]any{"e": "Start", "t": tn})
+			_, err := cl.PerformTransaction(msg, saddr, false)
+			r := "err:" + fmt.Sprint(err)
+			switch {
+			case err == nil:
+				r = "otherresp"
+			case strings.Contains(err.Error(), "closed"):
+				r = "closed"
+			case strings.Contains(err.Error(), "injected write") || strings.Contains(err.Error(), "retransmit"):
+				r = "writeerr"
+			case strings.Contains(err.Error(), "retransmissions failed"):
+				r = "timeout"
+			}
+			log.add(map[string]any{"e": "Ret", "t": tn, "res": r})
+			omu.Lock()
+			out2--
+			omu.Unlock()
+		}()
+	}
 	closed := make(chan struct{})
+	select {
+	case <-parked:
+		log.add(map[string]any{"e": "CloseCall"})
+		go func() {
+			cl.Close()
+			log.add(map[string]any{"e": "CloseRet"})
+			close(closed)
+		}()
+		time.Sleep(time.Duration(10+rnd(20)) * time.Millisecond)
+		close(release)
+	case <-time.After(3 * time.Second): // no retransmission ever came (a finding of the phase before): close all the same
+		log.add(map[string]any{"e": "Note", "what": "the gated retransmission never happened"})
+		close(release)
+		go func() {
+			cl.Close()
+			close(closed)
+		}()
+	}
+	done2 := make(chan struct{})
 	go func() {
-		cl.Close()
-		close(closed)
+		wg2.Wait()
+		close(done2)
 	}()
+	select {
+	case <-done2:
+	case <-time.After(5 * time.Second):
+	}
 	select {
 	case <-closed:
 	case <-time.After(2 * time.Second):
 	}
+	omu.Lock()
+	log.add(map[string]any{"e": "End2", "outstanding": out2})
+	omu.Unlock()
+	gate.Store(nil)
 	_ = cconn.Close()
 	_ = server.Close()
+}
+
+// rtxGate parks the second transmission of transaction t inside the socket write until release is closed; the write
+// then fails.
+type rtxGate struct {
+	t       string
+	parked  func()
+	release chan struct{}
 }
 
 // TestClientTxnRT records VERIF_NTRACES executions into VERIF_TRACE_OUT.
